@@ -10,6 +10,8 @@ from sa.guards import GuardView, atom_of, names_in
 from sa.index import own_nodes
 from sa.report import Ctx
 
+from .common import generic_sweeps
+
 EXPLANATION = (
     "Decides the few clauses of the min-cost-flow contract whose truth is in the shape of the code: (O1) min_cost_flow "
     "- the residual expression agrees between the Bellman-Ford search and the bottleneck loop, the bottleneck starts "
@@ -110,6 +112,7 @@ def run(ctx: Ctx):
     cap_sum = any(isinstance(s, ast.AugAssign) and ast.unparse(s.target) == "capacity[u][v]" for s in ast.walk(loops[0]))
     cost_min = any("min(cost[u][v]" in ast.unparse(s.value) for s in fwd)
     ctx.ob("C09-O5", "R18 SIBLING-AGREEMENT (policy)", f, "parallel arcs: pooled capacity is not priced at the minimum cost", not (cap_sum and cost_min), "capacities of parallel arcs are summed while their cost cell keeps the minimum: the dearer arc's capacity is used at the cheaper price", node=(fwd or [loops[0]])[0])
+    generic_sweeps(ctx)
 
 
 def _block_of(fn_node, stmt):
